@@ -159,10 +159,12 @@ theorem search_fuel_suffices (g : Csr) (s : Nat) (ind : List Int) (h : ind.getD 
 
 /-- **python_shape_is_reference**: `_initialize_internal_graph` walks pipes, pumps, valves (then all links for the position map,
 tanks then reservoirs for the sources), `run_sim` seeds the previously-isolated sets from ALL junctions and ALL links,
-`_update_internal_graph` / `_get_isolated_junctions_and_links` have the statement skeleton `updateGraph` / `getIsolated`
-transliterate, and the loop body of `run_sim` calls them in the order `runPass` is written for. -/
+`_initialize_internal_graph` / `_get_csr_data_index` / `_update_internal_graph` / `_get_isolated_junctions_and_links` have the
+statement skeletons `initGraph` / `getCsrDataIndex` / `updateGraph` / `getIsolated` transliterate, the head of `run_sim` seeds,
+builds the graph and takes the reference points unconditionally and in that order, and the loop body of `run_sim` calls them in the order `runPass` is written for. -/
 theorem python_shape_is_reference :
     Gen.iter = Prog.refIter ∧ Gen.updateToks = Prog.refUpdateToks ∧ Gen.isolatedToks = Prog.refIsolatedToks ∧
+    Gen.initToks = Prog.refInitToks ∧ Gen.csrIndexToks = Prog.refCsrIndexToks ∧ Gen.headToks = Prog.refHeadToks ∧
     Gen.loopToks = Prog.refLoopToks := by decide
 
 /-! ## 6. run level: every reported step, pauses and restarts included -/
